@@ -205,7 +205,9 @@ def run_case(ctx, mods, cap, cs, r):
                           "separation." + fn, "perfect estimate gives perm %r, SDR %r" % (
                               perm.tolist(), metrics[0].tolist()), case)
     # scaling invariance (a reference source, an estimate)
-    c = r.choice([2.0, -1.0, 0.5, -3.0, 10.0])
+    # incl. gains of 100-120 dB: the projections are scale-equivariant, no source may
+    # drop out of them because it is much quieter or louder than the others
+    c = r.choice([2.0, -1.0, 0.5, -3.0, 10.0, 1e-6, 1e5])
     j = r.randrange(nsrc)
     for side in ("est", "ref"):
         a, b = ref.astype(float), est.astype(float)
